@@ -167,7 +167,7 @@ class C09(BaseCheck):
                 out.append((text[:a] + '2.0' + text[b:], 'inner-verskew-pre3',
                             'nested grid header rewritten to 2.0 over a 3.0-only value in its rows (at %d)' % a))
         if d.has_v3:
-            to = r.choice(['2.0', '2.0', '1.0'])
+            to = r.choice(['2.0', '2.0', '1.0', '2', '2.0.0', '02.0'])    # every spelling of a pre-3.0 official version
             out.append((channel.verskew(text, to), 'verskew-pre3', 'header rewritten to %s over a 3.0-only construct' % to))
         return out
 
@@ -224,10 +224,17 @@ class C09(BaseCheck):
                 base = self._dump_base(r, d.ver)
                 d = None
             elif roll < 0.40:
+                # two grids in one text, separated by a blank line; with single=True (the default) the
+                # caller gets the first grid only, but a broken later grid must still be rejected
                 case['class'] = 'multi'
                 d2 = zincpeer.gen_doc(r, max_cols=2, max_rows=1)
                 base = d.text + '\n' + d2.text
-                case['single'] = False
+                off = len(d.text) + 1
+                for (text2, kind, why) in self._placed_faults(f, d2):
+                    if kind == 'drop-header':
+                        continue      # the second grid's rows would simply join the first grid's text
+                    deliveries.append({'text': base[:off] + text2, 'faults': [kind + '@grid2'],
+                                       'must_reject': why + ' (in the second grid of the text)'})
                 d = None
             else:
                 case['class'] = 'peer'
